@@ -18,7 +18,7 @@ from sentlib import NWB, WB, UNK
 ID = 'C05'
 PROGRAMS = {'core': dict(crate='vaporetto', features=['train', 'kytea'])}
 UNIT_CAP = 300
-BUDGET_S = {'quick': 270, 'thorough': 2400}
+BUDGET_S = {'quick': 600, 'thorough': 1200}      # wall-clock safety caps (exceeding one is reported as inconclusive); typical quick runs take 1-200 s
 
 SPECIALS = {'raw': '\0', 'tokenized': '\\ /\0', 'partial': '\\ /-|\0'}
 PARSERS = ('raw', 'tokenized', 'partial')
